@@ -229,12 +229,12 @@ def explore(ck, n, atm, np, xrun=True):
 
 
 def main():
-    ck = vlib.Check(PROP, pkg="numeric", props="Proofs.Props.C09", driver="drv_atm",
-                    lemma_files=["Proofs/Lemmas/Consts.lean"],
+    ck = vlib.Check(PROP, pkg="numeric", props="Proofs.Props.C09", more_props=["Proofs.Props.C09Sat"], driver="drv_atm",
+                    lemma_files=["Proofs/Lemmas/Consts.lean", "Proofs/Lemmas/Saturation.lean"],
                     model_files=["GenReal/Atmosphere.lean", "GenReal/Constants.lean"],
                     trusted=["tools/py2lean (translator): the emitted Lean term is the exact real-number reading of the Python expression; validated each run by compiling the Float reading of the same AST and comparing it with numpy on generated points (1e-9 relative on well-conditioned points)",
                              "floating-point evaluation, numpy broadcasting/masking are modelled pointwise, not verified (scalar/0-d/array agreement is exercised by the harness)",
-                             "NOT PROVED (validated by the sweep only): strict monotonicity of e_eq_water_mk, ice <= liquid below the triple point and their 1e-6 agreement there"],
+                             "ice <= liquid holds literally only up to T_t - 4.25 microkelvin (Murphy-Koop formulas cross there: proved C09_water_lt_ice_at_triple); the property's own reading 'equal there to 1e-6 relative' is what C09_ice_le_water_rel / C09_triple_point_agree prove and what the sweep checks"],
                     assumptions=["domains: 0 <= x,q < 1, w >= 0, 100 K <= T <= 400 K, 1 hPa <= p <= 1100 hPa"])
     ck.rule = ("log-uniform / uniform points over the stated domains plus branch temperatures to within one ulp, scalar/0-d/array inputs; "
                "non-trivial = distinct non-zero argument tuple per function/identity")
@@ -270,6 +270,6 @@ def corpus_case(ck, c, atm, np):
 def replay(path):
     import numpy as np
     from typhon.physics import atmosphere as atm
-    numlib.replay_by_rerun(PROP, path, lambda: vlib.Check(PROP, pkg="numeric", props="Proofs.Props.C09"),
+    numlib.replay_by_rerun(PROP, path, lambda: vlib.Check(PROP, pkg="numeric", props="Proofs.Props.C09", more_props=["Proofs.Props.C09Sat"]),
                            lambda ck: (ck.guard(lambda: explore(ck, ck.budget(150, 4000), atm, np, xrun=False)),
                                        [corpus_case(ck, c, atm, np) for _n, c in vlib.load_corpus(PROP)]))
